@@ -140,7 +140,9 @@ class History:
         live = self.live()
         if not live:
             return None
-        return live[op.get("h", 0) % len(live)]
+        h = live[op.get("h", 0) % len(live)]
+        h.pop("unobserved", None)  # from its first use on, the handle is looked at after every step like all others
+        return h
 
     def mark_stale(self, p, jid, except_group):
         for h in self.live():
@@ -216,7 +218,11 @@ class History:
         except Exception as e:
             self.mm("open_by_id", f"opening existing job {jid} ({how}) raised {type(e).__name__}: {e}")
             return
-        self.new_handle(job, p, self.model[p][jid]["sp"], kind=how)
+        h = self.new_handle(job, p, self.model[p][jid]["sp"], kind=how)
+        if op.get("lazy"):
+            # nobody looks at this handle (it stays as lazy as open_job left it) until an operation uses it
+            h["unobserved"] = True
+            self.cl.add("lazy_handle_left_alone")
 
     def op_new_gone_id(self, op):
         """open_job(id=...) for an id the project held earlier (job removed, or the old id of a re-keyed / moved
@@ -283,7 +289,21 @@ class History:
 
     def op_touch_sp(self, op):
         h = self.pick_handle(op)
-        if h is None or h["stale"]:
+        if h is None:
+            return
+        if h["stale"]:
+            # a handle whose job was removed / re-keyed elsewhere: whatever it reports (or raises), it never
+            # reports a state point that does not hash to the id it reports
+            if h.get("broken"):
+                return
+            try:
+                got = h["job"].statepoint()
+                jid_h = h["job"].id
+            except Exception:
+                return
+            if oracle.job_id(oracle.plain(got)) != jid_h:
+                self.mm("handle_sp", f"stale handle[{h['kind']}] reports id {jid_h} with state point {got!r} (hash {oracle.job_id(oracle.plain(got))})")
+            self.cl.add("stale_handle_observed")
             return
         jid = oracle.job_id(h["sp"])
         try:
@@ -1109,7 +1129,7 @@ class History:
                 pass
         if handles:
             for h in self.live():
-                if h["stale"]:
+                if h["stale"] or h.get("unobserved"):
                     continue
                 job = h["job"]
                 want_id = oracle.job_id(h["sp"])
